@@ -177,7 +177,7 @@ fn child_part(ctx: &Ctx, st: &Stats, part: &str, verbose: bool) {
                 for op in kern::Op::ALL {
                     for kind in kern::kinds() {
                         for len in 0..=maxlen {
-                            for (dc, scn) in [("pos", "lcg"), ("ff", "ff"), ("lcg", "alt3")] {
+                            for (dc, scn) in [("pos", "lcg"), ("ff", "ff"), ("lcg", "alt")] {
                                 for s in [0u8, 1, 2, 0xFF] {
                                     let c = kern::Case { op, kind, len, doff: 0, soff: 0, dcontent: dc.into(), scontent: scn.into(), scalar: s };
                                     if !kern::scalar_ok(op, kind, s) { continue; }
